@@ -30,6 +30,7 @@ def run(tier, seed, replay=None):
     r.cov["trusted_base"] = ["coqc 8.16.1 kernel + vm_compute", "props/c02.py + props/tickgen.py", "harness tick.rs/c02.rs",
                              "hook execute_work_queue_scripted (emulation of the work queue under a claim script)"]
     r.proof_phase(THEOREMS)
+    r.tables_phase("Sched")
     if replay:
         d = json.load(open(replay))
         cases = [d["replay"]["case"]] if "case" in d.get("replay", {}) else []
